@@ -137,6 +137,12 @@ def expect_change(cs, p, x, before, mname):
         return 'fail', BADVALUE, 'payload:' + why
     verdict = 'succeed' if st_ == 'A' else 'either'
     reason = 'payload-ok' if st_ == 'A' else 'payload:' + why
+    if p.get('islimit') and T['k'] == 'tuple' and isinstance(x, list) and len(x) == 2 and all(rm.isnum(e) for e in x):
+        lo, hi = (numeric_value(T['of'][0], e) for e in x)
+        if near(lo, hi) and lo != hi:
+            verdict, reason = 'either', 'limits-pair-nearly-equal'
+        elif lo > hi:
+            return 'fail', {'RangeError'}, 'inverted-limits'
     if partial_without_prev(T, x, before['params'][(mname, p['name'])][0], True):
         # validation may accept it (commands need that), but then it must go through completely
         verdict, reason = 'either', 'partial-struct-element-without-previous'
